@@ -1470,6 +1470,11 @@ def _main(ck, pools):
 
     sjobs = [{"conf": dict(c, n_particles=8, target="needle"), "seed": 300 + i + ck.seed, "label": f"needle#{i}", "n_total": 16}
              for i, c in enumerate([dict(clustering=False), dict(clustering=False, sample="rwm", resample="syst")] + ([] if quick else [dict(clustering=True, n_particles=16), dict(volume_variation=0.5, clustering=False)]))]
+    # several modes (K >= 2): the label a walker entered the mutation step with stays its label in every sweep (clause SW_LabelsFixed)
+    for k_ in range(3):
+        sjobs.append({"conf": dict(sample="tpcn", clustering=True, n_particles=16, target=("bimodal", "banana", "bimodal")[k_], n_max_clusters=(None, 3, 2)[k_]), "seed": 14000 + k_ + ck.seed,
+                      "label": f"several modes tpcn #{k_}", "n_total": 48})
+    sjobs.append({"conf": dict(sample="rwm", clustering=True, n_particles=16, target="bimodal"), "seed": 311 + ck.seed, "label": "two modes rwm", "n_total": 32})
     sc, straces = sysrun.system_part(ck, "C03", sjobs, lambda t: (t["meta"]["label"], t["meta"]["seed"]) if any(e["ev"] == "MutateEnd" for e in t["events"]) else None)
     ex_a["system_runs_tiny_first_temperature"] = sc["system_runs"]
     ex_a["system_events_validated"] = sc["system_events_validated"]
